@@ -72,6 +72,9 @@ def body(chk: check.Check):
     thin2 = (3, 4) if quick else (2, 3)
     r2 = generate(chk, pool2, 2, thin2, salt, f'ExprLang 2 operators thinned {thin2} salt {salt}', invs)
     recs += [(pool2, r) for r in r2]
+    # numeric literals written with many digits keep their value on both paths
+    pool_lit = exprenv.pool_literals()
+    r_lit = generate(chk, pool_lit, 1, (1,), 0, 'ExprLang: literals with more than six significant digits below every unary operator', invs)
     if not quick:
         thin3 = (6, 8, 12)
         r3 = generate(chk, pool2, 3, thin3, salt, f'ExprLang 3 operators thinned {thin3} salt {salt}', invs)
@@ -82,7 +85,7 @@ def body(chk: check.Check):
 
     # ---------------------------------------------------------------- (B) replay
     pairs = set()
-    for pool, group in ((pool1, r1), (pool2, [r for p, r in recs if p is pool2])):
+    for pool, group in ((pool1, r1), (pool2, [r for p, r in recs if p is pool2]), (pool_lit, r_lit)):
         exprreplay.init(pool)
         results = par.pmap(exprreplay.replay_values, group, chunk=40)
         nl = len(pool.leaves)
